@@ -764,9 +764,21 @@ fn parse_expr_unaryop(
 
                     // Cast input expression to operator input type
                     let expr_ir = if expr_ty != op_input_ety {
-                        let cast =
-                            ImplicitConversion::find(expr_ty, op_input_ety, &mut context.module)
-                                .unwrap();
+                        // Not every numeric type converts to bool (matrices do not)
+                        let cast = match ImplicitConversion::find(
+                            expr_ty,
+                            op_input_ety,
+                            &mut context.module,
+                        ) {
+                            Ok(cast) => cast,
+                            Err(()) => {
+                                return Err(TyperError::UnaryOperationWrongTypes(
+                                    op.clone(),
+                                    ErrorType::Unknown,
+                                    base_location,
+                                ));
+                            }
+                        };
                         cast.apply(expr_ir, &mut context.module)
                     } else {
                         expr_ir
